@@ -8,7 +8,8 @@ def dataset(seed, n=7, nv=5, classes=2, gap=False):
     r.shuffle(y)
     X = np.round(r.randn(n, 2) * 4) / 4 + y.reshape(-1, 1)
     X += np.arange(n).reshape(-1, 1) * 1e-3          # distinct rows / distances
-    yv = np.array([i % classes for i in range(nv)])
+    yv = np.array(list(range(classes)) + [int(r.randint(0, classes)) for _ in range(nv - classes)])
+    r.shuffle(yv)
     Xv = np.round(r.randn(nv, 2) * 4) / 4 + yv.reshape(-1, 1) + 0.0625
     if gap:                                          # class labels with a gap: 0, 2 (, 5)
         m = {0: 0, 1: 2, 2: 5}
@@ -21,9 +22,11 @@ def make_model(name):
     from sklearn.neighbors import KNeighborsClassifier
     from sklearn.linear_model import SGDClassifier, LogisticRegression
     from sklearn.tree import DecisionTreeClassifier
+    from sklearn.dummy import DummyClassifier
     return {"knn": lambda: KNeighborsClassifier(n_neighbors=1),
             "sgd": lambda: SGDClassifier(max_iter=30, tol=None),                       # random_state=None: global RNG
             "rtree": lambda: DecisionTreeClassifier(splitter="random", max_depth=3),   # random_state=None: global RNG
+            "dummy": lambda: DummyClassifier(strategy="uniform"),                     # predictions drawn from the global RNG
             "logreg": lambda: LogisticRegression()}[name]()
 
 
